@@ -357,6 +357,11 @@ fn dec_value(bytes: &[u8], idx: &mut usize) -> Result<Value> {
                 if is_exact_int(f) {
                     return Err(CanonError::FloatShouldBeInt);
                 }
+                // The encoder writes every NaN as the single quiet f16 NaN `f9 7e 00`;
+                // any other f16 NaN payload or sign would re-encode to different bytes.
+                if f.is_nan() && bytes[*idx - 2..*idx] != [0x7e, 0x00] {
+                    return Err(CanonError::NonCanonicalFloat);
+                }
                 Ok(Value::Float(f))
             }
             26 => {
